@@ -18,7 +18,7 @@ void _ZN3etl14assert_handlerINS_10assert_msgEEEvRKT_(struct etl_assert_msg *m)
 {
     vf_handler_fired = 1;
 #ifdef VF_NATIVE
-    printf("REPLAY-HANDLER line=%d expected=%d\n", m->line, vf_expect_handler);
+    if (!vf_quiet) printf("REPLAY-HANDLER line=%d expected=%d\n", m->line, vf_expect_handler);
     if (!vf_expect_handler) vf_fail("C05: assert_handler fired although the call respects the documented precondition");
     vf_exit();
 #else
